@@ -379,7 +379,75 @@ func (v *jv) text(sb *strings.Builder) {
 
 // Cases are printed in the monomorphic wire format of MappingCorr.v (WRound / WVPtr / WFCons …),
 // which Coq elaborates far faster than polymorphic list literals.
+// Strings that recur in every case (Go field names, JSON keys, component names) are defined once
+// in the preamble of each cases file and referred to by name: Coq spends most of its time
+// elaborating string literals character by character.  Pure abbreviation: the definitions are
+// printed from the same table that is used for the lookup.
+var vocab = map[string]cf.T{}
+var vocabPreamble string
+
+func initVocab() {
+	var words []string
+	seen := map[string]bool{}
+	add := func(ws ...string) {
+		for _, w := range ws {
+			if !seen[w] {
+				seen[w] = true
+				words = append(words, w)
+			}
+		}
+	}
+	for _, t := range []reflect.Type{reflect.TypeOf(mapping.IndexMappingImpl{}), reflect.TypeOf(mapping.DocumentMapping{}), reflect.TypeOf(mapping.FieldMapping{})} {
+		add(t.Name())
+		for i := 0; i < t.NumField(); i++ {
+			add(t.Field(i).Name)
+			if ft := t.Field(i).Type; ft.Kind() == reflect.Ptr && ft.Elem().Kind() == reflect.Struct {
+				for j := 0; j < ft.Elem().NumField(); j++ {
+					add(ft.Elem().Field(j).Name)
+				}
+			}
+		}
+	}
+	// the keys current bleve writes, and values the generator uses (any other string is printed literally)
+	add("types", "default_mapping", "type_field", "default_type", "default_analyzer", "default_datetime_parser",
+		"default_synonym_source", "scoring_model", "default_field", "store_dynamic", "index_dynamic", "docvalues_dynamic",
+		"analysis", "enabled", "dynamic", "properties", "fields", "nested", "struct_tag_key", "name", "type", "analyzer",
+		"store", "index", "include_term_vectors", "include_in_all", "date_format", "docvalues", "skip_freq_norm", "dims",
+		"similarity", "vector_index_optimized_for", "synonym_source", "gpu", "char_filters", "tokenizers", "token_maps",
+		"token_filters", "analyzers", "date_time_parsers", "synonym_sources",
+		"_type", "_default", "_all", "dateTimeOptional", "tokenizer", "regexp", "replace", "exceptions", "tokens",
+		"stop_token_map", "min", "max", "back", "length", "layouts", "collection", "custom", "unicode", "to_lower",
+		"html", "exception", "stop_tokens", "ngram", "edge_ngram", "truncate_token", "flexiblego", "sanitizedgo",
+		"coll_a", "coll_b", "kind", "alt", "other", "bleve", "json", "unix_sec", "unix_milli", "unix_nano",
+		"l2_norm", "dot_product", "cosine", "recall", "latency", "memory-efficient", "sub.a", "x.y", "a_kw",
+		index.BM25Scoring, index.TFIDFScoring)
+	add("", "t1", "t2", "x", "#", "the", "foo", "bar", "[a-zA-Z#]+", "[0-9]+")
+	add(fieldTypes...)
+	add(builtinAnalyzers...)
+	add(propNames...)
+	add(poolNames...)
+	var sb strings.Builder
+	sb.WriteString("From Coq Require Import String.\n")
+	for i, w := range words {
+		lit := wstrLit(w)
+		if !strings.HasPrefix(string(lit), "(WS ") {
+			continue
+		}
+		n := fmt.Sprintf("w%d", i)
+		vocab[w] = cf.T(n)
+		sb.WriteString("Definition " + n + " := " + strings.TrimSuffix(strings.TrimPrefix(string(lit), "("), ")") + ".\n")
+	}
+	vocabPreamble = sb.String()
+}
+
 func wstr(s string) cf.T {
+	if n, ok := vocab[s]; ok {
+		return n
+	}
+	return wstrLit(s)
+}
+
+func wstrLit(s string) cf.T {
 	ok := true
 	for i := 0; i < len(s); i++ {
 		if s[i] < 0x20 || s[i] > 0x7e || s[i] == '"' {
@@ -611,6 +679,9 @@ func execRound(in In) (res vh.Result) {
 		return vh.Result{Skip: true, Hist: []string{"skip:build-error"}}
 	}
 	if err := m.Validate(); err != nil {
+		if os.Getenv("C16_DEBUG") != "" {
+			fmt.Fprintf(os.Stderr, "invalid %s: %v\n", in.Label, err)
+		}
 		return vh.Result{Skip: true, Hist: []string{"skip:original-invalid"}}
 	}
 	var b1 []byte
@@ -1131,7 +1202,7 @@ func rndMap(r *vrand.R) *MapD {
 		m.DefaultDTP = vrand.Pick(r, []string{"dt_slash", "dt_sane"})
 		custom = append(custom, m.DefaultDTP)
 	} else if r.Chance(1, 4) {
-		m.DefaultDTP = vrand.Pick(r, []string{"unix_sec", "isostyle"})
+		m.DefaultDTP = vrand.Pick(r, []string{"unix_sec", "unix_nano"})
 	}
 	if r.Chance(1, 8) {
 		m.DefaultSynonym = "syn_a"
@@ -1424,13 +1495,14 @@ func gen(f vh.Flags, r *vrand.R, emit func(In)) {
 }
 
 func main() {
+	initVocab()
 	vh.Main(vh.Config{
 		Property:  "C16",
 		Imports:   []string{"Common.Bytes", "Codec.Json", "Codec.StructCodec", "Codec.MappingTables", "Codec.MappingCorr"},
 		CaseType:  "MappingCorr.wcase",
 		CheckFn:   "MappingCorr.wcheck",
 		ExplainFn: "MappingCorr.wexplain",
-		Preamble:  "From Coq Require Import String.\n",
+		Preamble:  vocabPreamble,
 		Rule: "round: a systematic sweep (every option of FieldMapping / DocumentMapping / IndexMappingImpl set alone to a non-default value, " +
 			"at every place a document mapping can sit) plus random mapping trees (type mappings, sub-mappings to depth 3, all field options, " +
 			"custom analysis components from a pool of 17) built through the bleve API, each with 3-5 documents (JSON values and Go structs) and a scorch " +
